@@ -2,9 +2,19 @@
 
 from typing import Optional
 
-from abnf.parser import ABNFGrammarNodeVisitor, ABNFGrammarRule, Rule
+from abnf.parser import ABNFGrammarNodeVisitor, ABNFGrammarRule, Alternation, Parser, Rule
 
 __all__ = ['load_grammar_rules', 'load_grammar_rulelist']
+
+
+def _imported_definition(rule: Rule) -> Parser:
+    """The importing class gets its own top-level Alternation, so that setting
+    first_match_alternation on the imported rule does not change the source grammar."""
+    definition = rule.definition
+    if isinstance(definition, Alternation):
+        return Alternation(*definition.parsers, first_match=definition.first_match)
+    return definition
+
 
 def load_grammar_rules(imported_rules: Optional[list[tuple[str, Rule]]] = None):
     """A decorator that loads grammar rules following class declaration.  The code assumes
@@ -24,7 +34,7 @@ def load_grammar_rules(imported_rules: Optional[list[tuple[str, Rule]]] = None):
             cls.create(src)
         if imported_rules:
             for rule_def in imported_rules:
-                cls(rule_def[0], rule_def[1].definition)
+                cls(rule_def[0], _imported_definition(rule_def[1]))
         return cls
 
     return rule_decorator
@@ -47,7 +57,7 @@ def load_grammar_rulelist(imported_rules: Optional[list[tuple[str, Rule]]] = Non
 
         if imported_rules:
             for rule_def in imported_rules:
-                cls(rule_def[0], rule_def[1].definition)
+                cls(rule_def[0], _imported_definition(rule_def[1]))
         return cls
 
     return rule_decorator
